@@ -89,15 +89,21 @@ class Ctx:
         return out
 
     # ---------- Coq ----------
-    def coq_make(self, timeout=3000):
-        """Full .vo build of /verif/coq (no-op when fresh). Serialised across concurrent checks."""
-        with open(os.path.join(VERIF, "build", ".coq.lock"), "w") as lk:
-            fcntl.flock(lk, fcntl.LOCK_EX)
-            rc, o = self.sh(["bash", "bin/mkcoqproject.sh"])
-            if rc != 0:
-                return False, o
-            rc, o = self.sh(["make", "-C", COQ, "-j16"], timeout=timeout)
-            return rc == 0, o
+    def coq_make(self, targets=None, timeout=3000):
+        """Full .vo build (no -vos) of the given targets of /verif/coq (everything when None); no-op when fresh.
+        Serialised across concurrent checks by bin/coqmake.sh (flock)."""
+        rc, o = self.sh(["bash", "bin/coqmake.sh"] + list(targets or []), timeout=timeout)
+        return rc == 0, o
+
+    def vo_targets(self, dirs, prop_v=None):
+        t = []
+        for d in dirs:
+            p = os.path.join(COQ, d)
+            files = sorted(glob.glob(os.path.join(p, "*.v"))) if os.path.isdir(p) else [p]
+            t += [os.path.relpath(f, COQ) + "o" for f in files]
+        if prop_v:
+            t.append(prop_v + "o")
+        return t
 
     def coqc(self, path, timeout=600, extra_q=None, cwd=None):
         """Compiles one .v file (full check) against the Verif library; extra_q = [(dir, logical)] overlays."""
@@ -219,7 +225,7 @@ class Ctx:
 
     def proof_side(self, dirs, prop_v, extra_trusted=()):
         """make (no-op when fresh) + audit + obligations + Print Assumptions. Returns False if the proof side is broken."""
-        ok, out = self.coq_make()
+        ok, out = self.coq_make(self.vo_targets(dirs, prop_v))
         if not ok:
             self.log("coq make failed:\n" + out[-3000:])
             self.violation({"kind": "proof-broken", "what": "make of /verif/coq failed", "log_tail": out[-3000:]},
@@ -271,7 +277,7 @@ class Ctx:
                         print("KNOWN-FINDING: property=%s %s %s" % (self.id, sig, what), flush=True)
             if not hit:
                 self.violation({"kind": "unlisted-finding", "sig": sig}, tag="unlisted")
-        for f in stats.get("oracle_failures") or []:
+        for f in (stats.get("oracle_failures") or [])[:5]:
             sig = f.get("sig") if isinstance(f, dict) else None
             self.violation({"kind": "implementation-violates-property", "case": f, "seed": self.seed,
                             "replay": "bin/check %s --replay <this file>" % self.id}, tag="impl", sig=sig)
